@@ -482,6 +482,7 @@ func (s *Subscriber) SyncAdChain(ctx context.Context, peerInfo peer.AddrInfo, op
 	// the publisher is still under way would start from a head, or stop at a
 	// point, that the other sync is about to overtake, report advertisements
 	// a second time and move the latest sync backwards.
+	verifhook.LockWait("sync.lock", hnd.peerID, &hnd.syncMutex)
 	hnd.syncMutex.Lock()
 	defer hnd.syncMutex.Unlock()
 
@@ -1003,6 +1004,7 @@ func (h *handler) asyncSyncAdChain(ctx context.Context) {
 
 	// Wait for any other sync of this publisher to finish, and only then
 	// look at the latest sync: see SyncAdChain.
+	verifhook.LockWait("sync.lock", h.peerID, &h.syncMutex)
 	h.syncMutex.Lock()
 	defer h.syncMutex.Unlock()
 
@@ -1020,6 +1022,7 @@ func (h *handler) asyncSyncAdChain(ctx context.Context) {
 		// If nothing synced yet, use first sync depth if configured.
 		adsDepthLimit = recursionLimit(h.subscriber.firstSyncDepth)
 	}
+	verifhook.Point("async.work", h.peerID)
 
 	peerInfo := peer.AddrInfo{
 		ID:    amsg.PeerID,
